@@ -115,6 +115,16 @@ def worker(job, r):
                         lc = 'L>255' if L > 255 else ('L>c' if lvl_bad else 'L<=c')
                         r.viol('verifier:%s:%s:%s:got=%s' % (pol, hname, lc, got), '%s; cmd=%s first-link-correction=%d rfc3161=%s' % (why, cmd[:200], cc, s.rfc is not None), 'sigparse 0 0 empty %s\n%s' % (raw, cmd))
                     r.count('outcome_' + got)
+                    if L <= 255 and (mism or lvl_bad) and rng.random() < 0.2:
+                        # one verification context filled in ONCE and used for two verifications in a row (the internal policy, then this one): the second
+                        # use still sees the document hash and level and gives the same refusal
+                        ex.cmd('verify 0 0 internal doc=%s lvl=%d api=verifier uservc=1' % (h.hex(), L))
+                        q3 = ex.cmd('verify 0 0 %s%s doc=%s lvl=%d api=verifier uservc=1 reuse=1' % (pol, extra, h.hex(), L))
+                        r.count('context_used_twice_without_refilling')
+                        want = mism or 'GEN-03'
+                        if not (q3.get('reused') and q3.rc == 0 and RES.get(int(q3.get('res', -1))) == 'FAIL' and q3.get('err') == want):
+                            r.viol('verifier:%s:%s:context-used-twice:got=%s/%s' % (pol, hname, RES.get(int(q3.get('res', -1))) if q3.rc == 0 else 'rc%d' % q3.rc, q3.get('err') or '-'),
+                                   'a verification context filled in once (document hash variant %s, level %d) and used for a second verification under policy %s: expected FAIL %s again, got rc=%#x res=%s err=%s' % (hname, L, pol, want, q3.rc, q3.get('res'), q3.get('err')), 'sigparse 0 0 empty %s\n%s' % (raw, cmd))
                     # KSI_Signature_verifyWithPolicy, with and without a caller supplied context
                     for ctxarg in ([''] + ([pubs] if extra else []) + [extra + ' docin=ctx', extra + ' docin=parse']):
                         # '' / pubs: hash and level as explicit arguments; docin=ctx / docin=parse: both inside the caller's context, explicit arguments NULL / 0
